@@ -1083,6 +1083,13 @@ class _NP:
             e.axiom(z3.And(z3.Implies(vr > 1, t > 0), z3.Implies(vr == 1, t == 0), z3.Implies(z3.And(vr > 0, vr < 1), t < 0)))
         return self._uf1("log", x, math.log, ax, domain=lambda v: v > 0)
 
+    def log1p(self, x):
+        """D27: log1p(t) = log(1 + t), expm1(x) = exp(x) - 1 as real functions (their point is floating-point accuracy near 0)"""
+        return self.log(1.0 + x if not isinstance(x, Arr) else x + 1.0)
+
+    def expm1(self, x):
+        return self.exp(x) - 1.0
+
     def sin(self, x):
         if is_quarter_pi(x):
             return HALF_SQRT2()
